@@ -1,5 +1,6 @@
 import Harper.Model.Spell
 import Harper.Lemmas.SpellRule
+import Harper.Props.C02b
 /-!
 # C06 — a word is reported misspelt exactly when the dictionary does not contain it
 
@@ -521,5 +522,326 @@ example :
         else e.canon) :=
   spellRule_suggestions_are_words envAscii fnsAscii tinyDict uniqueKeys_tinyDict ['C','t','a']
     [[], [['c','a','t'], ['l','i','f','t'], ['P','a','r','i','s']]] (by decide) ⟨0, 3⟩
+
+/-! ### w26: C06 at sentence level — the loop of `SpellCheck::lint` reports exactly the words the dictionary does not accept
+
+`spell_check.rs`, `SpellCheck::lint`: `for word in document.iter_words() { if <accepted> { continue }; …; lints.push(Lint { span:
+word.span, .. }) }`. The model of the loop is `SpellRule.ruleSpellCheck` (no cache), `SpellRule.spellCheckLint` (the code, with its
+`word_cache`) and `SpellRule.spellSession` (one instance over several documents — what op `spellr` of the driver runs). The
+theorems above are about the test `<accepted>` on ONE word; these are about the run over a token list: which tokens get a lint, how
+many, on which span, in which order. `SpellRule.flagged senv src t` is the loop's own test (`t` is a word token and the `continue`
+condition rejects its characters), `SpellRule.lintAt senv src t` the lint the loop body pushes for `t` (span `t.span`). -/
+
+section sentence
+open Harper Harper.Rules Harper.Leaves Harper.SpellRule
+
+/-- **`SpellCheck::lint` reports exactly the unaccepted words.** On tokens inside the text, with a search that does not panic on a
+flagged word (`SuggestOK`): the rule returns, IN TOKEN ORDER, exactly one lint per word token whose characters the `continue`
+condition does not accept, the lint of that token (`lintAt`, span = the token's span); accepted word tokens and tokens that are
+not words contribute nothing. In particular the list of lint spans is the list of spans of the unaccepted word tokens. -/
+theorem spellCheck_exact (senv : SpellEnv) (hs : SuggestOK senv) (src : List Char) (toks : List Tok) (h : InText src toks) :
+    ∃ ls, ruleSpellCheck senv src toks = .ok ls ∧
+      ls = (toks.filter (flagged senv src)).map (lintAt senv src) ∧
+      ls.map (·.span) =
+        (toks.filter fun t => t.kind.isWord && !accepted (senv.data (textOf src t.span))).map (·.span) := by
+  refine ⟨_, ruleSpellCheck_eq senv hs src toks h, rfl, ?_⟩
+  rw [List.map_map]
+  rfl
+
+/-- the same without any hypothesis on the search: a run that returns, returns exactly those lints … -/
+theorem spellCheck_exact_of_ok (senv : SpellEnv) (src : List Char) (toks : List Tok) (h : InText src toks) (ls : List RuleLint)
+    (e : ruleSpellCheck senv src toks = .ok ls) :
+    ls = (toks.filter (flagged senv src)).map (lintAt senv src) ∧
+      ls.map (·.span) =
+        (toks.filter fun t => t.kind.isWord && !accepted (senv.data (textOf src t.span))).map (·.span) := by
+  have e' := ruleSpellCheck_eq_of_ok senv src toks h ls e
+  refine ⟨e', ?_⟩
+  rw [e', List.map_map]
+  rfl
+
+/-- … and a run panics exactly when the search of some flagged word does (`get_word_metadata(v).unwrap()` inside
+`cached_suggest_correct_spelling`), with that panic -/
+theorem spellCheck_panics_iff (senv : SpellEnv) (src : List Char) (toks : List Tok) (h : InText src toks) :
+    (∃ p, ruleSpellCheck senv src toks = .error p) ↔
+      ∃ t ∈ toks, flagged senv src t = true ∧ (senv.data (textOf src t.span)).suggest = none := by
+  rcases ruleSpellCheck_cases senv src toks h with ⟨e, hall⟩ | ⟨e, hex⟩
+  · constructor
+    · rintro ⟨p, hp⟩; rw [e] at hp; cases hp
+    · rintro ⟨t, ht, hf, hn⟩; exact absurd hn (hall t ht hf)
+  · exact ⟨fun _ => hex, fun _ => ⟨_, e⟩⟩
+
+/-- **the same of the code with its `word_cache`** (`spellCheckLint`: `SpellCheck::lint` of an instance whose cache is `st`, any
+capacity): whatever the cache holds — entries this rule produced for this dictionary, `CacheInv` — the lints are those of
+`spellCheck_exact` -/
+theorem spellCheck_cached_exact (senv : SpellEnv) (hs : SuggestOK senv) (cap : Nat) (st : WordCache) (hi : CacheInv senv st)
+    (src : List Char) (toks : List Tok) (h : InText src toks) :
+    (spellCheckLint senv cap st src toks).1 = .ok ((toks.filter (flagged senv src)).map (lintAt senv src)) := by
+  rw [spellCheckLint, (spellGo_spec senv id (keySound_id senv) cap src toks st ((keyInv_id senv st).mpr hi)).1]
+  exact ruleSpellCheck_eq senv hs src toks h
+
+/-- **what op `spellr` of the driver runs** (`spellSession … id cap []`: one `SpellCheck` with an empty cache of any capacity linting
+the documents in turn): every document gets exactly the lints of its unaccepted word tokens, whatever was linted before it -/
+theorem spellSession_exact (senv : SpellEnv) (hs : SuggestOK senv) (cap : Nat) (docs : List (List Char × List Tok))
+    (h : ∀ d ∈ docs, InText d.1 d.2) :
+    spellSession senv id cap [] docs =
+      docs.map fun d => .ok ((d.2.filter (flagged senv d.1)).map (lintAt senv d.1)) := by
+  rw [spellSession_spec senv id (keySound_id senv) cap docs [] (keyInv_nil senv id)]
+  exact List.map_congr_left fun d hd => ruleSpellCheck_eq senv hs d.1 d.2 (h d hd)
+
+/-- **every lint covers exactly one unaccepted word**: a lint of a run that returned is the lint of a word token of the list
+whose characters are not accepted; its span is that token's span, so the text under the lint is exactly the word's characters -/
+theorem spellCheck_lint_covers_word (senv : SpellEnv) (src : List Char) (toks : List Tok) (h : InText src toks)
+    (ls : List RuleLint) (e : ruleSpellCheck senv src toks = .ok ls) (l : RuleLint) (hl : l ∈ ls) :
+    ∃ t ∈ toks, t.kind.isWord = true ∧ accepted (senv.data (textOf src t.span)) = false ∧ l = lintAt senv src t ∧
+      l.span = t.span ∧ l.span.getContent src = .ok (textOf src t.span) := by
+  rw [ruleSpellCheck_eq_of_ok senv src toks h ls e] at hl
+  obtain ⟨t, ht, rfl⟩ := List.mem_map.mp hl
+  obtain ⟨ht1, ht2⟩ := List.mem_filter.mp ht
+  simp only [flagged, Bool.and_eq_true, Bool.not_eq_true'] at ht2
+  exact ⟨t, ht1, ht2.1, ht2.2, rfl, rfl, getContent_textOf src t (h t ht1)⟩
+
+/-- **the converse clause: every unaccepted word is reported**, on exactly its span -/
+theorem spellCheck_reports_every_unaccepted (senv : SpellEnv) (src : List Char) (toks : List Tok) (h : InText src toks)
+    (ls : List RuleLint) (e : ruleSpellCheck senv src toks = .ok ls) (t : Tok) (ht : t ∈ toks) (hw : t.kind.isWord = true)
+    (ha : accepted (senv.data (textOf src t.span)) = false) : ∃ l ∈ ls, l = lintAt senv src t ∧ l.span = t.span := by
+  rw [ruleSpellCheck_eq_of_ok senv src toks h ls e]
+  refine ⟨_, List.mem_map.mpr ⟨t, List.mem_filter.mpr ⟨ht, ?_⟩, rfl⟩, rfl, rfl⟩
+  simp only [flagged, hw, ha, Bool.not_false, Bool.and_self]
+
+/-- **exactly one lint per unaccepted word, none on an accepted one**: when the word tokens have pairwise different spans
+(tokens that tile the text do, `spellCheck_tiled` below), the lints lying on the span of a word token `t` are exactly one when
+`t`'s characters are not accepted and none when they are -/
+theorem spellCheck_lints_per_word (senv : SpellEnv) (src : List Char) (toks : List Tok) (h : InText src toks)
+    (hd : (toks.filter fun t => t.kind.isWord).Pairwise fun a b => a.span ≠ b.span)
+    (ls : List RuleLint) (e : ruleSpellCheck senv src toks = .ok ls) (t : Tok) (ht : t ∈ toks) (hw : t.kind.isWord = true) :
+    (ls.filter fun l => l.span = t.span).length = if accepted (senv.data (textOf src t.span)) = true then 0 else 1 := by
+  rw [ruleSpellCheck_eq_of_ok senv src toks h ls e, count_lints_on_span]
+  have hff : toks.filter (flagged senv src) =
+      (toks.filter fun t => t.kind.isWord).filter fun t => !accepted (senv.data (textOf src t.span)) := by
+    rw [List.filter_filter]
+    exact List.filter_congr fun x _ => by simp only [flagged, Bool.and_comm]
+  rw [hff, count_span_filter _ _ hd t (List.mem_filter.mpr ⟨ht, hw⟩)]
+  cases accepted (senv.data (textOf src t.span)) <;> rfl
+
+/-- tokens that tile the text (what `Document::new` delivers for plain English, `C02.document_tiles`): all hypotheses on the
+tokens hold, and for EVERY token `t` — word or not — the number of lints on `t`'s span is one when `t` is an unaccepted word and
+zero otherwise -/
+theorem spellCheck_tiled (senv : SpellEnv) (hs : SuggestOK senv) (src : List Char) (toks : List Tok)
+    (ht : Tiles toks 0 src.length) :
+    ∃ ls, ruleSpellCheck senv src toks = .ok ls ∧ ls = (toks.filter (flagged senv src)).map (lintAt senv src) ∧
+      ∀ t ∈ toks, (ls.filter fun l => l.span = t.span).length = if flagged senv src t = true then 1 else 0 := by
+  refine ⟨_, ruleSpellCheck_eq senv hs src toks (inText_of_tiles src toks ht), rfl, ?_⟩
+  intro t htm
+  rw [count_lints_on_span]
+  exact count_span_filter _ toks (tiles_spans_distinct toks 0 src.length ht).2 t htm
+
+/-- **plain-English documents**: `Document::new(text, &PlainEnglish, _)` followed by `SpellCheck::lint` — the tokens exist, and
+the lints are exactly those of the unaccepted word tokens, one per token (`C02.document_tiles` + `spellCheck_tiled`) -/
+theorem spellCheck_document (cls : Cls) (ext : Ext) (src : List Char) (hext : ExtOK ext src.length) (senv : SpellEnv)
+    (hs : SuggestOK senv) :
+    ∃ toks ls, document cls ext src = .ok toks ∧ ruleSpellCheck senv src toks = .ok ls ∧
+      ls = (toks.filter (flagged senv src)).map (lintAt senv src) ∧
+      ∀ t ∈ toks, (ls.filter fun l => l.span = t.span).length = if flagged senv src t = true then 1 else 0 := by
+  obtain ⟨toks, e, ht⟩ := C02.document_tiles cls ext src hext
+  obtain ⟨ls, e1, e2, e3⟩ := spellCheck_tiled senv hs src toks ht
+  exact ⟨toks, ls, e, e1, e2, e3⟩
+
+/-! #### the bridge to the dictionary: `SpellRule.FaithfulTo senv f dict` — the `continue` condition of `senv` IS `Spell.accept` over
+`dict` (true of every `SpellEnv` whose word data are `SpellRule.dataOf f dict _`, `faithfulTo_dataOf`) -/
+
+/-- **the run in terms of the dictionary**: the lint spans are, in order, the spans of the word tokens whose characters
+`Spell.accept` rejects -/
+theorem spellCheck_exact_dict (senv : SpellEnv) (f : Fns) (dict : List Entry) (hf : FaithfulTo senv f dict)
+    (hs : SuggestOK senv) (src : List Char) (toks : List Tok) (h : InText src toks) :
+    ∃ ls, ruleSpellCheck senv src toks = .ok ls ∧
+      ls.map (·.span) = (toks.filter fun t => t.kind.isWord && !accept f dict (textOf src t.span)).map (·.span) := by
+  obtain ⟨ls, e, _, e2⟩ := spellCheck_exact senv hs src toks h
+  refine ⟨ls, e, ?_⟩
+  rw [e2]
+  congr 1
+  exact List.filter_congr fun t _ => by rw [hf]
+
+/-- **C06 at rule level, both directions, per word token**: over a dictionary with unique keys and `lower` / `normalize`
+satisfying `Laws`, for a word token `t` of a token list whose word tokens have different spans, the number of lints on `t`'s span
+is ZERO when some entry has the key of `t`'s characters, allows the dialect and is spelt as the (normalized) characters or
+their lower-casing — the word is in the dictionary — and ONE otherwise: every word the dictionary does not contain is reported,
+once, on exactly its span; no word it contains is -/
+theorem spellCheck_reported_iff_not_in_dictionary (senv : SpellEnv) (f : Fns) (hl : Laws f) (dict : List Entry)
+    (hu : UniqueKeys f dict) (hf : FaithfulTo senv f dict) (src : List Char) (toks : List Tok) (h : InText src toks)
+    (hd : (toks.filter fun t => t.kind.isWord).Pairwise fun a b => a.span ≠ b.span)
+    (ls : List RuleLint) (e : ruleSpellCheck senv src toks = .ok ls) (t : Tok) (ht : t ∈ toks) (hw : t.kind.isWord = true) :
+    ((∃ en ∈ dict, key f en.canon = key f (textOf src t.span) ∧ en.dialectOk = true ∧
+        (en.canon = f.normalize (textOf src t.span) ∨ en.canon = f.normalize (f.lower (textOf src t.span)))) →
+      (ls.filter fun l => l.span = t.span).length = 0) ∧
+    ((¬ ∃ en ∈ dict, key f en.canon = key f (textOf src t.span) ∧ en.dialectOk = true ∧
+        (en.canon = f.normalize (textOf src t.span) ∨ en.canon = f.normalize (f.lower (textOf src t.span)))) →
+      (ls.filter fun l => l.span = t.span).length = 1 ∧ ∃ l ∈ ls, l.span = t.span ∧ l = lintAt senv src t) := by
+  have hc := spellCheck_lints_per_word senv src toks h hd ls e t ht hw
+  rw [hf] at hc
+  have hiff := accept_iff f hl dict hu (textOf src t.span)
+  constructor
+  · intro hin
+    rw [hc, if_pos (hiff.mpr hin)]
+  · intro hnin
+    have ha : accept f dict (textOf src t.span) = false := by
+      cases hacc : accept f dict (textOf src t.span) with
+      | false => rfl
+      | true => exact absurd (hiff.mp hacc) hnin
+    refine ⟨by rw [hc, ha]; rfl, ?_⟩
+    obtain ⟨l, hl1, hl2, hl3⟩ := spellCheck_reports_every_unaccepted senv src toks h ls e t ht hw (by rw [hf, ha])
+    exact ⟨l, hl1, hl3, hl2⟩
+
+/-- a word token whose key no entry has (a word that is not in the dictionary in any capitalisation) is reported, whatever the
+other tokens are — no law, no uniqueness needed -/
+theorem spellCheck_unlisted_reported (senv : SpellEnv) (f : Fns) (dict : List Entry) (hf : FaithfulTo senv f dict)
+    (src : List Char) (toks : List Tok) (h : InText src toks) (ls : List RuleLint)
+    (e : ruleSpellCheck senv src toks = .ok ls) (t : Tok) (ht : t ∈ toks) (hw : t.kind.isWord = true)
+    (hn : ∀ en ∈ dict, key f en.canon ≠ key f (textOf src t.span)) : ∃ l ∈ ls, l.span = t.span := by
+  obtain ⟨l, hl1, _, hl3⟩ := spellCheck_reports_every_unaccepted senv src toks h ls e t ht hw
+    (by rw [hf]; exact unlisted_flagged f dict _ hn)
+  exact ⟨l, hl1, hl3⟩
+
+/-! #### non-vacuity: `teh Cat lift` over `tinyDict` (`cat`, `Paris`, `lift` of another dialect) -/
+
+/-- a `SpellEnv` BUILT from the dictionary `tinyDict` (`dataOf`): the search offers `cat` for `teh`, nothing otherwise -/
+def envTiny : SpellEnv :=
+  ⟨dataOf fnsAscii tinyDict fun w => if w = ['t','e','h'] then some [['c','a','t']] else some [], asciiIsUpper, asciiUp⟩
+
+theorem faithful_envTiny : FaithfulTo envTiny fnsAscii tinyDict := faithfulTo_dataOf _ _ _ _ _
+
+theorem suggestOK_envTiny : SuggestOK envTiny := by
+  intro w _
+  show (if w = ['t','e','h'] then some [['c','a','t']] else some []) ≠ none
+  split <;> exact Option.some_ne_none _
+
+/-- `teh Cat lift`: five tokens; `teh` (unknown) and `lift` (other dialect) are reported on their spans, `Cat` (capitalised form of
+the entry `cat`) and the spaces are not -/
+def tehCatLift : List Char := ['t','e','h',' ','C','a','t',' ','l','i','f','t']
+def tehCatLiftToks : List Tok := [⟨⟨0, 3⟩, .word⟩, ⟨⟨3, 4⟩, .space 1⟩, ⟨⟨4, 7⟩, .word⟩, ⟨⟨7, 8⟩, .space 1⟩, ⟨⟨8, 12⟩, .word⟩]
+
+example : ruleSpellCheck envTiny tehCatLift tehCatLiftToks =
+    .ok [⟨⟨0, 3⟩, [.replaceWith ['c','a','t']], 60, 1⟩, ⟨⟨8, 12⟩, [], 60, 0⟩] := by decide
+
+theorem tiles_tehCatLift : Tiles tehCatLiftToks 0 tehCatLift.length := by decide
+
+/-- non-vacuity of `spellCheck_exact` / `spellCheck_exact_dict` / `spellCheck_tiled`: all hypotheses together -/
+example : ∃ ls, ruleSpellCheck envTiny tehCatLift tehCatLiftToks = .ok ls ∧
+    ls.map (·.span) = (tehCatLiftToks.filter fun t => t.kind.isWord && !accept fnsAscii tinyDict (textOf tehCatLift t.span)).map
+      (·.span) :=
+  spellCheck_exact_dict envTiny fnsAscii tinyDict faithful_envTiny suggestOK_envTiny tehCatLift tehCatLiftToks
+    (inText_of_tiles _ _ tiles_tehCatLift)
+
+example : (tehCatLiftToks.filter fun t => t.kind.isWord && !accept fnsAscii tinyDict (textOf tehCatLift t.span)).map (·.span) =
+    [⟨0, 3⟩, ⟨8, 12⟩] := by decide
+
+example : ∃ ls, ruleSpellCheck envTiny tehCatLift tehCatLiftToks = .ok ls ∧
+    ls = (tehCatLiftToks.filter (flagged envTiny tehCatLift)).map (lintAt envTiny tehCatLift) ∧
+    ∀ t ∈ tehCatLiftToks, (ls.filter fun l => l.span = t.span).length = if flagged envTiny tehCatLift t = true then 1 else 0 :=
+  spellCheck_tiled envTiny suggestOK_envTiny tehCatLift tehCatLiftToks tiles_tehCatLift
+
+/-- non-vacuity of `spellCheck_reported_iff_not_in_dictionary` (`Laws`, `UniqueKeys`, `FaithfulTo`, tokens in the text with
+different spans, a run that returned): `Cat` is in the dictionary — no lint on `4..7`; `lift` is not (its entry is of another
+dialect) — one lint on `8..12` -/
+example : ∀ ls, ruleSpellCheck envTiny tehCatLift tehCatLiftToks = .ok ls →
+    (ls.filter fun l => l.span = (⟨4, 7⟩ : Span)).length = 0 ∧ (ls.filter fun l => l.span = (⟨8, 12⟩ : Span)).length = 1 := by
+  intro ls e
+  have hin := inText_of_tiles _ _ tiles_tehCatLift
+  have hd : (tehCatLiftToks.filter fun t => t.kind.isWord).Pairwise fun a b => a.span ≠ b.span := by decide
+  refine ⟨(spellCheck_reported_iff_not_in_dictionary envTiny fnsAscii laws_fnsAscii tinyDict uniqueKeys_tinyDict faithful_envTiny
+      tehCatLift tehCatLiftToks hin hd ls e ⟨⟨4, 7⟩, .word⟩ (by decide) rfl).1
+        ⟨⟨['c','a','t'], true⟩, by decide, by decide, rfl, Or.inr (by decide)⟩,
+    ((spellCheck_reported_iff_not_in_dictionary envTiny fnsAscii laws_fnsAscii tinyDict uniqueKeys_tinyDict faithful_envTiny
+      tehCatLift tehCatLiftToks hin hd ls e ⟨⟨8, 12⟩, .word⟩ (by decide) rfl).2 ?_).1⟩
+  rintro ⟨en, hen, _, hd', _⟩
+  simp only [tinyDict, List.mem_cons, List.not_mem_nil, or_false] at hen
+  rcases hen with rfl | rfl | rfl
+  · revert ‹key fnsAscii _ = _›; decide
+  · revert ‹key fnsAscii _ = _›; decide
+  · cases hd'
+
+/-- the word cache and the session of the driver on the same text, linted twice by one instance with a one-entry cache -/
+example : spellSession envTiny id 1 [] [(tehCatLift, tehCatLiftToks), (tehCatLift, tehCatLiftToks)] =
+    [.ok [⟨⟨0, 3⟩, [.replaceWith ['c','a','t']], 60, 1⟩, ⟨⟨8, 12⟩, [], 60, 0⟩],
+     .ok [⟨⟨0, 3⟩, [.replaceWith ['c','a','t']], 60, 1⟩, ⟨⟨8, 12⟩, [], 60, 0⟩]] := by decide
+
+/-- **the hypothesis "different spans" of `spellCheck_lints_per_word` is needed**: a token list that names the same word twice
+(never produced by `Document::new`) gets two lints on that span -/
+example : (ruleSpellCheck envTiny ['t','e','h'] [⟨⟨0, 3⟩, .word⟩, ⟨⟨0, 3⟩, .word⟩]).map
+    (fun ls => (ls.filter fun l => l.span = (⟨0, 3⟩ : Span)).length) = .ok 2 := by decide
+
+/-- **`SuggestOK` is needed for `spellCheck_exact`, and `spellCheck_panics_iff` is not vacuous**: a flagged word whose search
+panics ends the run -/
+example : ruleSpellCheck { envTiny with data := fun _ => ⟨false, false, false, false, none⟩ } tehCatLift tehCatLiftToks =
+    .error .unwrapNone := by decide
+
+/-- non-vacuity of `spellCheck_exact_of_ok`, `spellCheck_lint_covers_word`, `spellCheck_reports_every_unaccepted`,
+`spellCheck_unlisted_reported` on that run (which returns, by the evaluated example above): every lint sits on an unaccepted word
+token; `lift` is reported; `teh`, whose key no entry has, is reported -/
+example : ∀ ls, ruleSpellCheck envTiny tehCatLift tehCatLiftToks = .ok ls →
+    ls = (tehCatLiftToks.filter (flagged envTiny tehCatLift)).map (lintAt envTiny tehCatLift) ∧
+    (∀ l ∈ ls, ∃ t ∈ tehCatLiftToks, t.kind.isWord = true ∧ accepted (envTiny.data (textOf tehCatLift t.span)) = false ∧
+      l = lintAt envTiny tehCatLift t ∧ l.span = t.span ∧ l.span.getContent tehCatLift = .ok (textOf tehCatLift t.span)) ∧
+    (∃ l ∈ ls, l = lintAt envTiny tehCatLift ⟨⟨8, 12⟩, .word⟩ ∧ l.span = ⟨8, 12⟩) ∧
+    (∃ l ∈ ls, l.span = ⟨0, 3⟩) := by
+  intro ls e
+  have hin := inText_of_tiles _ _ tiles_tehCatLift
+  exact ⟨(spellCheck_exact_of_ok envTiny tehCatLift tehCatLiftToks hin ls e).1,
+    spellCheck_lint_covers_word envTiny tehCatLift tehCatLiftToks hin ls e,
+    spellCheck_reports_every_unaccepted envTiny tehCatLift tehCatLiftToks hin ls e ⟨⟨8, 12⟩, .word⟩ (by decide) rfl (by decide),
+    spellCheck_unlisted_reported envTiny fnsAscii tinyDict faithful_envTiny tehCatLift tehCatLiftToks hin ls e ⟨⟨0, 3⟩, .word⟩
+      (by decide) rfl (by decide)⟩
+
+/-- non-vacuity of `spellCheck_panics_iff` (direction ←, on the panicking dictionary of the last example) -/
+example : ∃ p, ruleSpellCheck { envTiny with data := fun _ => ⟨false, false, false, false, none⟩ } tehCatLift tehCatLiftToks =
+    .error p :=
+  (spellCheck_panics_iff _ tehCatLift tehCatLiftToks (inText_of_tiles _ _ tiles_tehCatLift)).mpr
+    ⟨⟨⟨0, 3⟩, .word⟩, by decide, rfl, rfl⟩
+
+/-- non-vacuity of `spellCheck_cached_exact`: a cache that already holds the entry for `teh` (`CacheInv`), capacity 1 -/
+example : (spellCheckLint envTiny 1 [(['t','e','h'], [['c','a','t']])] tehCatLift tehCatLiftToks).1 =
+    .ok ((tehCatLiftToks.filter (flagged envTiny tehCatLift)).map (lintAt envTiny tehCatLift)) :=
+  spellCheck_cached_exact envTiny suggestOK_envTiny 1 _ (by
+      intro en hen
+      simp only [List.mem_singleton] at hen
+      subst hen
+      rfl)
+    tehCatLift tehCatLiftToks (inText_of_tiles _ _ tiles_tehCatLift)
+
+/-- non-vacuity of `spellSession_exact`: the two-document session evaluated above -/
+example : spellSession envTiny id 1 [] [(tehCatLift, tehCatLiftToks), (tehCatLift, tehCatLiftToks)] =
+    [(tehCatLift, tehCatLiftToks), (tehCatLift, tehCatLiftToks)].map fun d =>
+      .ok ((d.2.filter (flagged envTiny d.1)).map (lintAt envTiny d.1)) :=
+  spellSession_exact envTiny suggestOK_envTiny 1 _ (by
+    intro d hd
+    simp only [List.mem_cons, List.not_mem_nil, or_false, or_self] at hd
+    subst hd
+    exact inText_of_tiles _ _ tiles_tehCatLift)
+
+/-- non-vacuity of `spellCheck_document`: the ASCII class table, no external tokens; the tokens `Document::new` delivers for
+`teh Cat lift` are the five of the example -/
+example : ∃ toks ls, document C02.asciiCls (fun _ => none) tehCatLift = .ok toks ∧
+    ruleSpellCheck envTiny tehCatLift toks = .ok ls ∧
+    ls = (toks.filter (flagged envTiny tehCatLift)).map (lintAt envTiny tehCatLift) ∧
+    ∀ t ∈ toks, (ls.filter fun l => l.span = t.span).length = if flagged envTiny tehCatLift t = true then 1 else 0 :=
+  spellCheck_document C02.asciiCls (fun _ => none) tehCatLift (by intro _ _ _ h; cases h) envTiny suggestOK_envTiny
+
+example : document C02.asciiCls (fun _ => none) tehCatLift = .ok tehCatLiftToks := by decide
+
+end sentence
+
+/-! ### w26 — `listed_accepted` without the `Laws` it never used (audit w22 §4 C06 (c)) -/
+
+/-- a listed word, in its listed (normalized) capitalisation and admitted by the dialect, is never reported — for ANY
+pair of `lower` / `normalize` functions (no `Laws`: the exact-spelling path of `accept` compares the entry with itself) -/
+theorem listed_accepted_any_fns (f : Fns) (dict : List Entry) (hu : UniqueKeys f dict)
+    (e : Entry) (he : e ∈ dict) (hd : e.dialectOk = true) (hn : f.normalize e.canon = e.canon) :
+    accept f dict e.canon = true := by
+  have h1 : lookup f dict e.canon = some e := lookup_of_mem f dict hu e he _ rfl
+  have h2 : lookup f dict (f.normalize e.canon) = some e := by rw [hn]; exact h1
+  simp [accept, h1, hd, containsExact, h2, hn]
+
+/-- non-vacuity: the capitalised entry `Paris` of `tinyDict` -/
+example : accept fnsAscii tinyDict ['P','a','r','i','s'] = true :=
+  listed_accepted_any_fns fnsAscii tinyDict uniqueKeys_tinyDict ⟨['P','a','r','i','s'], true⟩ (by decide) rfl rfl
 
 end Harper.C06
